@@ -10,7 +10,7 @@
        clause-ordered, for pipelines of any length.
    The resolver and the rest of the back end are tied by the end-to-end oracle, not by proof. *)
 From Coq Require Import List ZArith QArith NArith Bool Permutation.
-From PV Require Import Model.Rel Proofs.RelFacts Model.SplitBase Gen.GenSplit Proofs.SplitProofs Proofs.Theta2 Proofs.Theta2c Proofs.SegmentSound Proofs.SegmentDistinct Model.SelectPluck Proofs.PluckSound Model.SplitOff Proofs.SplitOffProofs.
+From PV Require Import Model.Rel Proofs.RelFacts Model.SplitBase Gen.GenSplit Proofs.SplitProofs Proofs.Theta2 Proofs.Theta2c Proofs.SegmentSound Proofs.SegmentDistinct Model.SelectPluck Proofs.PluckSound Model.SplitOff Proofs.SplitOffProofs Model.Preprocess Proofs.PreprocessProofs Proofs.SetRewrites.
 Import ListNotations.
 
 (* ---- (c) table obligation on what anchor.rs says NOW ---- *)
@@ -246,6 +246,83 @@ Theorem c01_kinds_theta_spec : forall (row : Type) (p : list (SelectPluck.pt (ro
   map (SegmentDistinct.kind_d row) (PluckSound.to_trd row p) = SelectPluck.kinds_theta _ _ _ _ _ p.
 Proof. exact PluckSound.kinds_theta_spec. Qed.
 Print Assumptions c01_kinds_theta_spec.
+
+(* ---- (d) the rewrites of preprocess.rs into DISTINCT / INTERSECT / EXCEPT.  Model/Preprocess.v holds the recognisers'
+   decisions (compared with every pass of every compile through the hook 8fb8a9c); here: what the two sides MEAN on rows
+   (abstract rows, `eqb` = row equality as set operations see it, `m` = the join condition, `agree` = they coincide on the rows at
+   hand, i.e. no NULL keys), and what a positive decision guarantees. *)
+(* group {keys} (take 1) is a DISTINCT when equal keys mean equal rows -- i.e. the keys are all live columns (fix bc8ad7d) *)
+Theorem c01_group_take1_is_distinct : forall (row : Type) (eqb : row -> row -> bool) (key : Type) (keq : key -> key -> bool) (kof : row -> key),
+  (forall x y, keq (kof x) (kof y) = eqb x y) -> forall l, SetRewrites.group_take1 row key keq kof l = SetRewrites.dd row eqb l.
+Proof. exact SetRewrites.group_take1_is_distinct. Qed.
+Print Assumptions c01_group_take1_is_distinct.
+Theorem c01_group_take1_is_distinct_refuted :
+  let eqb2 := fun x y : nat * nat => Nat.eqb (fst x) (fst y) && Nat.eqb (snd x) (snd y) in
+  SetRewrites.group_take1 (nat * nat) nat Nat.eqb fst [(1, 1); (1, 2)]%nat <> SetRewrites.dd (nat * nat) eqb2 [(1, 1); (1, 2)]%nat.
+Proof. exact SetRewrites.group_take1_is_distinct_refuted. Qed.
+Print Assumptions c01_group_take1_is_distinct_refuted.
+
+(* inner join on all columns keeping the top columns, with a DISTINCT BEHIND it, is INTERSECT DISTINCT *)
+Theorem c01_inner_join_then_distinct_is_intersect : forall (row : Type) (eqb : row -> row -> bool), (forall x y, eqb x y = true <-> x = y) ->
+  forall (m : row -> row -> bool) top bottom, SetRewrites.agree row eqb m top bottom ->
+  SetRewrites.dd row eqb (SetRewrites.inner_keep_top row m top bottom) = SetRewrites.intersect_distinct row eqb top bottom.
+Proof. exact SetRewrites.inner_join_then_distinct_is_intersect. Qed.
+Print Assumptions c01_inner_join_then_distinct_is_intersect.
+
+(* Full statement for a DISTINCT IN FRONT of the join (what intersect_inner also accepts; FALSE: finding F41):
+     agree top bottom -> inner_keep_top (dd top) bottom = intersect_distinct top bottom
+   partial: the bottom relation must be duplicate-free, which the code does not ask *)
+Theorem c01_distinct_then_inner_join_is_intersect_partial : forall (row : Type) (eqb : row -> row -> bool), (forall x y, eqb x y = true <-> x = y) ->
+  forall (m : row -> row -> bool) top bottom, SetRewrites.agree row eqb m top bottom -> NoDup bottom ->
+  SetRewrites.inner_keep_top row m (SetRewrites.dd row eqb top) bottom = SetRewrites.intersect_distinct row eqb top bottom.
+Proof. exact SetRewrites.distinct_then_inner_join_is_intersect. Qed.
+Print Assumptions c01_distinct_then_inner_join_is_intersect_partial.
+Theorem c01_distinct_then_inner_join_is_intersect_refuted :
+  SetRewrites.inner_keep_top nat Nat.eqb (SetRewrites.dd nat Nat.eqb [1; 2]%nat) [1; 1]%nat <> SetRewrites.intersect_distinct nat Nat.eqb [1; 2]%nat [1; 1]%nat.
+Proof. exact SetRewrites.distinct_then_inner_join_refuted. Qed.
+Print Assumptions c01_distinct_then_inner_join_is_intersect_refuted.
+(* ... and `agree` itself fails with a NULL key (0 plays NULL: `==` never matches it, INTERSECT does) *)
+Theorem c01_inner_join_null_key_refuted :
+  let m := fun r u => negb (Nat.eqb r 0) && Nat.eqb r u in
+  SetRewrites.dd nat Nat.eqb (SetRewrites.inner_keep_top nat m [0; 1]%nat [0; 1]%nat) <> SetRewrites.intersect_distinct nat Nat.eqb [0; 1]%nat [0; 1]%nat.
+Proof. exact SetRewrites.inner_join_null_key_refuted. Qed.
+Print Assumptions c01_inner_join_null_key_refuted.
+
+(* left join + filter (bottom == null) keeping the top columns = anti-join; with a DISTINCT (in front or behind) it is EXCEPT DISTINCT *)
+Theorem c01_anti_join_is_except_distinct : forall (row : Type) (eqb : row -> row -> bool), (forall x y, eqb x y = true <-> x = y) ->
+  forall (m : row -> row -> bool) top bottom, SetRewrites.agree row eqb m top bottom ->
+  SetRewrites.dd row eqb (SetRewrites.anti_join row m top bottom) = SetRewrites.except_distinct row eqb top bottom /\
+  SetRewrites.anti_join row m (SetRewrites.dd row eqb top) bottom = SetRewrites.except_distinct row eqb top bottom.
+Proof. exact SetRewrites.anti_join_is_except_distinct. Qed.
+Print Assumptions c01_anti_join_is_except_distinct.
+(* without a DISTINCT the code emits EXCEPT ALL (where the dialect has it), which subtracts multiplicities (finding F48):
+   full statement FALSE:  agree top bottom -> anti_join top bottom = except_all top bottom *)
+Theorem c01_anti_join_is_except_all_refuted :
+  SetRewrites.anti_join nat Nat.eqb [1; 1]%nat [1]%nat <> SetRewrites.except_all nat Nat.eqb [1; 1]%nat [1]%nat.
+Proof. exact SetRewrites.anti_join_is_except_all_refuted. Qed.
+Print Assumptions c01_anti_join_is_except_all_refuted.
+
+(* what a positive decision of the recognisers guarantees (the structural half of `agree`: the condition pairs the columns
+   position by position and tests nothing else; no bottom column is used afterwards; DISTINCT flag from the neighbours) *)
+Theorem c01_intersect_decision_yes : forall top bottom output used cond db da ia w d,
+  intersect_decision top bottom output used cond db da ia w = Yes d ->
+  is_exact_pairing top bottom cond = true /\
+  existsb (fun c => memn c output) bottom = false /\ existsb (fun c => memn c used) bottom = false /\
+  d = (db || da) /\ (d = false -> ia = true).
+Proof. exact PreprocessProofs.intersect_yes. Qed.
+Print Assumptions c01_intersect_decision_yes.
+Theorem c01_except_decision_yes : forall top bottom output used cond filter db ea w d,
+  except_decision top bottom output used cond filter db ea w = Yes d ->
+  is_exact_pairing top bottom cond = true /\ only_equals filter = true /\ all_null (snd (collect_equals filter)) = true /\
+  existsb (fun c => memn c output) bottom = false /\ existsb (fun c => memn c used) bottom = false /\
+  d = db /\ (d = false -> ea = true).
+Proof. exact PreprocessProofs.except_yes. Qed.
+Print Assumptions c01_except_decision_yes.
+Theorem c01_distinct_decision_yes : forall f se cif part ub db don,
+  distinct_decision f se cif part ub db don = DDistinct ->
+  f = true /\ se = true /\ same_elements cif part = true /\ only_these_used ub db part = true.
+Proof. exact PreprocessProofs.distinct_yes. Qed.
+Print Assumptions c01_distinct_decision_yes.
 
 (* ---- (a) the edge cases the property names, as facts of the reference semantics ---- *)
 Theorem c01_agg_one_row : forall cols l, length (Rel.apply (Rel.TAggregate cols) l) = 1%nat.
